@@ -172,7 +172,8 @@ class Check:
         mine = [r for r in self.results if (r.get('prop') or self.prop) == self.prop]
         others = [r for r in self.results if (r.get('prop') or self.prop) != self.prop]
         violations, known, undecided, checker_errors = [], [], [], list(self.errors)
-        counted = [r for r in mine if r['kind'] not in ('canary', 'cover', 'guard')]
+        counted = [r for r in mine if r['kind'] not in ('canary', 'cover', 'guard', 'assumed')]
+        assumed = [r for r in mine if r['kind'] == 'assumed']
         canaries = [r for r in mine if r['kind'] == 'canary']
         covers = [r for r in mine if r['kind'] == 'cover']
         guards = [r for r in mine if r['kind'] == 'guard']
@@ -236,6 +237,7 @@ class Check:
             # obligations refuted by a LISTED known finding are reported separately, not as discharged
             'obligations': len(counted) - len(known), 'discharged': len(discharged),
             'obligations_refuted_by_listed_known_findings': [r['id'] for r, f in known],
+            'obligations_excluded_by_a_stated_hypothesis': [{'id': r['id'], 'status': r['status'], 'hypothesis': r.get('hypothesis')} for r in assumed],
             'checker_cmd': checker_cmd, 'trusted_base': TRUSTED_BASE,
             'by_label': by_label, 'by_backend': by_backend,
             'canaries_refuted': len([r for r in canaries if r['status'] == 'refuted']),
